@@ -81,6 +81,7 @@ type MapIter struct {
 	Rest []*MapEntry
 	Str  string
 	Pos  int
+	InOrder bool
 }
 
 type ChanObj struct {
